@@ -265,6 +265,12 @@ func zsetScripts() [][][]string {
 		{{"zadd", "1", "2", "2"}, {"zadd", "k1", "1", "m"}, {"zrank", "k1", "m", "withscore"}, {"zrevrank", "k1", "m", "WITHSCORE"},
 			{"zunionstore", "a", "weights"}, {"zadd", "k2", "nx", "xx", "1", "m"}, {"zadd", "k2", "1", "b", "x", "d"}, {"zinterstore", "k3", "k1", "withscores"},
 			{"zcount", "k1", "-INF", "+INF"}, {"zadd", "k1", "gt", "ch", "2", "e", "2", "d", "1.5", "d"}},
+		// regression inputs of repaired defects: AGGREGATE as the last token of the four combining commands (a syntax
+		// error now, a panic before), a zero count (an empty array now, one member before), a negative ZPOP count
+		{{"zadd", "k1", "1", "a", "2", "b"}, {"zadd", "k2", "2", "b"}, {"zunion", "k1", "aggregate"}, {"zinter", "k1", "k2", "WEIGHTS", "1", "0", "aggregate"},
+			{"zunionstore", "k3", "k1", "AGGREGATE"}, {"zinterstore", "k3", "k1", "k2", "weights", "2", "10", "aggregate"}, {"zunion", "k1", "k2", "withscores", "aggregate"},
+			{"zpopmin", "k1", "0"}, {"zpopmax", "k1", "0"}, {"zrandmember", "k1", "0"}, {"zrandmember", "k1", "0", "withscores"}, {"zpopmin", "k9", "0"},
+			{"zpopmax", "k1", "-1"}, {"zrange", "k1", "-inf", "+inf", "withscores"}, {"zpopmin", "k1", "1"}, {"zrange", "k1", "-inf", "+inf", "withscores"}},
 		probe("zunionstore", "k3", "k1"),
 		probe("zunionstore", "k3", "k1", "k9"),
 		probe("zunionstore", "k3", "k1", "weights", "1"),
